@@ -8,13 +8,14 @@ Import ListNotations.
 Open Scope string_scope.
 Open Scope Z_scope.
 
-Inductive expect := XNaN | XPInf | XNInf | XEncl (E : I.type).
+Inductive expect := XNaN | XPInf | XNInf | XBits (b : Z) (* exactly this bit pattern: the operation is exact, the sign of a zero included *) | XEncl (E : I.type).
 
 Definition elem_ok (w : fw) (r : Z) (e : expect) : bool :=
   match e, decode w r with
   | XNaN, VNaN => true
   | XPInf, VInf false => true
   | XNInf, VInf true => true
+  | XBits b, _ => (r =? b)%Z
   | XEncl E, _ => res_in w r E
   | _, _ => false
   end.
@@ -73,7 +74,7 @@ Definition unary_expect (op : string) (w : fw) (x : Z) : option expect :=
       else None
   | VFin m e =>
       let p := pt m e in
-      if is_op op "Abs" then Some (XEncl (I.abs p))
+      if is_op op "Abs" then Some (XBits (x mod match w with W32 => 2147483648 | W64 => 9223372036854775808 end))   (* sign bit cleared, -0 included *)
       else if is_op op "Relu" then Some (XEncl (if is_pos m then p else izero))
       else if is_op op "Sigmoid" then Some (XEncl (sigmoid_encl w p (abs_ceil m e)))
       else if is_op op "Tanh" then Some (XEncl (widen w K (r_tanh p)))
@@ -89,7 +90,11 @@ Definition unary_expect (op : string) (w : fw) (x : Z) : option expect :=
         Some (if negb (within1 p) then XNaN
               else if I.subset p ione then XEncl izero
               else if I.subset p (I.neg ione) then XEncl (widen w K (I.pi prec))
-              else XEncl (widen w K (r_acos p)))
+              else XEncl (let E := widen w K (r_acos p) in
+                          (* Go's math.Acos is pi/2 - Asin(x): its error is a few units in the last place OF
+                             pi/2, not of the (small) result when x is close to 1 -- an ABSOLUTE allowance of
+                             2^-50 (float64; float32 results are rounded from float64 and need none) *)
+                          match w with W64 => I.add prec E (iv (-1) (-50) 1 (-50)) | W32 => E end))
       else if is_op op "Atan" then Some (XEncl (widen w K (I.atan prec p)))
       else if is_op op "Sinh" then
         Some (XEncl (let E := widen w K (r_sinh p) in
@@ -117,7 +122,7 @@ Definition prelu_expect (w : fw) (x s : Z) : expect :=
                      | VInf sneg => if sneg then XPInf else XNInf
                      | VFin sm se => XEncl (f_mul w (pt sm se) (pt m e))
                      end
-                else XEncl (pt m e)
+                else XBits x          (* x >= 0, both zeros included: x itself *)
   | VInf true => match decode w s with
                  | VNaN => XNaN
                  | VInf sneg => if sneg then XPInf else XNInf
